@@ -166,9 +166,10 @@ def runItems (W : World) (requested : Option (List (String × Sg))) (rec : RunRe
             | none => rec st g env'
       | .load path _ =>
         match requested with
-        | some _ =>
-          -- `dds.load`: the committed path table of the store, then the blob (None when absent)
-          match aget st.store.paths path with
+        | some rq =>
+          -- `dds.load`: the key fixed by this evaluation if it keeps the path (since the `fix:` commit for
+          -- C09), else the committed path table of the store; then the blob (None when absent)
+          match (aget rq path).orElse (fun _ => aget st.store.paths path) with
           | none => (.error (.dds .missingPaths), st)
           | some key => (.ok ((sgGet st.store.blobs key).getD (.py .none)), st)
         | none => (.error (.dds .objectNotFound), st)      -- plain execution handles loads separately
@@ -259,9 +260,12 @@ def analysisPhase (m : Nat) (W : World) (S : PStore) (rq : Request) : Except Dds
       match indirectFn W W.fuel [] ({}, []) fn with
       | .error e => .error e
       | .ok (ind, _) =>
-        match fetchPaths S (loadsToCheck ind) with
+        match orderFn W ind.stores W.fuel [] fn with
         | .error e => .error e
-        | .ok refs0 => analysisWith m W rq fn named refs0
+        | .ok _ =>
+          match fetchPaths S (loadsToCheck ind) with
+          | .error e => .error e
+          | .ok refs0 => analysisWith m W rq fn named refs0
 
 def evalStep (m : Nat) (W : World) (S : PStore) (rq : Request) : Outcome :=
   match analysisPhase m W S rq with
